@@ -1391,6 +1391,157 @@ func emitStruct() {
 		rows = append(rows, fmt.Sprintf("(%s, %s)", leanStr(p[1]), leanStr(alias(p[0], p[1]))))
 	}
 	e.f("%s]\n", strings.Join(rows, ", "))
+	// every data type of package datatype whose Go representation can share memory with the
+	// decoder's argument: `type X []byte`, `type X net.IP` (anything that is not a string, a
+	// number, or time.Time), with the aliasing class of its decoder `DecodeX`
+	var kinded []string
+	type tdef struct{ rel, name, under string }
+	var tdefs []tdef
+	under := map[string]string{}
+	if ents, err := os.ReadDir(filepath.Join(repo, "diam/datatype")); err == nil {
+		for _, ent := range ents {
+			if !strings.HasSuffix(ent.Name(), ".go") || strings.HasSuffix(ent.Name(), "_test.go") {
+				continue
+			}
+			rel := "diam/datatype/" + ent.Name()
+			for _, d := range parseFile(rel).Decls {
+				gd, ok := d.(*ast.GenDecl)
+				if !ok || gd.Tok != token.TYPE {
+					continue
+				}
+				for _, sp := range gd.Specs {
+					ts := sp.(*ast.TypeSpec)
+					if _, isIface := ts.Type.(*ast.InterfaceType); isIface {
+						continue
+					}
+					if _, isFunc := ts.Type.(*ast.FuncType); isFunc {
+						continue
+					}
+					u := exprString(ts.Type)
+					under[ts.Name.Name] = u
+					tdefs = append(tdefs, tdef{rel, ts.Name.Name, u})
+				}
+			}
+		}
+	}
+	for _, td := range tdefs {
+		u := td.under
+		for i := 0; i < 10; i++ { // follow `type A B` chains inside the package
+			if v, ok := under[u]; ok {
+				u = v
+			} else {
+				break
+			}
+		}
+		switch u {
+		case "string", "uint32", "uint64", "int32", "int64", "float32", "float64", "time.Time", "int":
+			continue
+		}
+		kinded = append(kinded, fmt.Sprintf("(%s, %s, %s)", leanStr(td.name), leanStr(u), leanStr(alias(td.rel, "Decode"+td.name))))
+	}
+	sort.Strings(kinded)
+	// string-kinded data types: every return of DecodeX must be a chain of conversions of the
+	// parameter to package-local string types (`T(b)`, `T(OctetString(b))`): Go copies there
+	var strdec []string
+	for _, td := range tdefs {
+		u := td.under
+		for i := 0; i < 10; i++ {
+			if v, ok := under[u]; ok {
+				u = v
+			} else {
+				break
+			}
+		}
+		if u != "string" {
+			continue
+		}
+		cls := "unrecognised"
+		if fd := findFunc(parseFile(td.rel), "", "Decode"+td.name); fd != nil {
+			cls = "conversion"
+			ast.Inspect(fd, func(n ast.Node) bool {
+				rs, ok := n.(*ast.ReturnStmt)
+				if !ok || len(rs.Results) != 2 {
+					return true
+				}
+				x := rs.Results[0]
+				for {
+					c, ok := x.(*ast.CallExpr)
+					if !ok || len(c.Args) != 1 {
+						break
+					}
+					id, ok := c.Fun.(*ast.Ident)
+					if !ok {
+						break
+					}
+					if _, isT := under[id.Name]; !isT && id.Name != "string" {
+						break
+					}
+					x = c.Args[0]
+				}
+				if id, ok := x.(*ast.Ident); !(ok && (id.Name == "b" || id.Name == "nil")) {
+					cls = "unrecognised:" + exprString(rs.Results[0])
+				}
+				return true
+			})
+		}
+		strdec = append(strdec, fmt.Sprintf("(%s, %s)", leanStr(td.name), leanStr(cls)))
+	}
+	sort.Strings(strdec)
+	e.f("/-- string-kinded data types and the form of what DecodeX returns (\"conversion\" = conversions of the parameter to string types only) -/\ndef stringDecoders : List (String × String) := [%s]\n", strings.Join(strdec, ", "))
+	// files of the codec packages importing "unsafe" (a string or slice built there can share memory)
+	var unsafeFiles []string
+	codecFile := func(dir, name string) bool {
+		if dir == "diam/datatype" {
+			return true
+		}
+		switch name {
+		case "avp.go", "group.go", "message.go", "header.go":
+			return true
+		}
+		return false
+	}
+	for _, dir := range []string{"diam/datatype", "diam"} {
+		if ents, err := os.ReadDir(filepath.Join(repo, dir)); err == nil {
+			for _, ent := range ents {
+				if !strings.HasSuffix(ent.Name(), ".go") || strings.HasSuffix(ent.Name(), "_test.go") || !codecFile(dir, ent.Name()) {
+					continue
+				}
+				for _, im := range parseFile(dir + "/" + ent.Name()).Imports {
+					if im.Path.Value == "\"unsafe\"" {
+						unsafeFiles = append(unsafeFiles, leanStr(dir+"/"+ent.Name()))
+					}
+				}
+			}
+		}
+	}
+	e.f("/-- codec files (diam/datatype/*.go, diam/avp.go, group.go, message.go, header.go) importing \"unsafe\" -/\ndef unsafeImports : List String := [%s]\n", strings.Join(unsafeFiles, ", "))
+	e.f("/-- data types whose Go representation is not a string / number / time (so could be a view of the input): (name, underlying type, aliasing class of DecodeX) -/\ndef sliceKinded : List (String × String × String) := [%s]\n", strings.Join(kinded, ", "))
+	// diam.GroupedAVP: field types (the intermediate datatype.Grouped view must not be retained)
+	var gfields []string
+	for _, d := range parseFile("diam/group.go").Decls {
+		if gd, ok := d.(*ast.GenDecl); ok && gd.Tok == token.TYPE {
+			for _, sp := range gd.Specs {
+				ts := sp.(*ast.TypeSpec)
+				if st, ok := ts.Type.(*ast.StructType); ok && ts.Name.Name == "GroupedAVP" {
+					for _, fl := range st.Fields.List {
+						gfields = append(gfields, leanStr(exprString(fl.Type)))
+					}
+				}
+			}
+		}
+	}
+	e.f("/-- field types of `diam.GroupedAVP` -/\ndef groupedAVPFields : List String := [%s]\n", strings.Join(gfields, ", "))
+	// message.go: is the body buffer returned to the pool when ReadMessage returns?
+	pooled := "unrecognised"
+	if fd := findFunc(parseFile("diam/message.go"), "", "ReadMessage"); fd != nil {
+		pooled = "private"
+		for _, st := range fd.Body.List {
+			if ds, ok := st.(*ast.DeferStmt); ok && exprString(ds.Call.Fun) == "putReaderBuffer" {
+				pooled = "pooled"
+			}
+		}
+	}
+	e.f("/-- `ReadMessage`: what happens to the buffer the body was decoded from -/\ndef bodyBuffer : String := %s\n", leanStr(pooled))
 
 	// sm.New registrations and client loop bounds
 	smf := parseFile("diam/sm/sm.go")
